@@ -110,6 +110,7 @@ osnoc = z3.Function('osnoc', OSeq, Con, OSeq)
 otake = z3.Function('otake', OSeq, Int, OSeq)
 holds = z3.Function('holds', Asg, Con, Bool)
 osat = z3.Function('osat', Asg, OSeq, Bool)
+oappc = z3.Function('oappc', OSeq, CSeq, OSeq)         # O followed by one constraint  (sum of the clause's literals >= 1)  per clause of C
 omaxabs = z3.Function('omaxabs', OSeq, Int)
 ohaszero = z3.Function('ohaszero', OSeq, Bool)
 onormal = z3.Function('onormal', OSeq, Bool)          # every constraint: coefficients >= 0, op in {>=, ==}
@@ -123,7 +124,7 @@ def cmp_op(op, lhs, rhs):
 
 FUNCS = dict(tlen=tlen, tcoef=tcoef, tlit=tlit, tunit=tunit, tnegc=tnegc, tset=tset, wsum=wsum, thaszero=thaszero,
              tmaxabs=tmaxabs, tnonneg=tnonneg, tmpos=tmpos, tzpos=tzpos, mkcon=mkcon, olen=olen, osnoc=osnoc, otake=otake, holds=holds,
-             osat=osat, omaxabs=omaxabs, ohaszero=ohaszero, onormal=onormal,
+             osat=osat, oappc=oappc, omaxabs=omaxabs, ohaszero=ohaszero, onormal=onormal,
              ilen=ilen, iget=iget, inil=inil, isnoc=isnoc, iapp=iapp, ineg=ineg, haszero=haszero,
              maxof=maxof, minof=minof, maxabs=maxabs, lit_true=lit_true, count=count, ctrue=ctrue,
              clen=clen, cget=cget, cnil=cnil, csnoc=csnoc, capp=capp, ctake=ctake, combs=combs, sat=sat,
@@ -147,7 +148,8 @@ def b2i(b):
 
 
 # schemas used in VCs whose Lean proof is not (yet) in lemmas/: reported as ASSUMED LEMMAS in every evidence file
-ASSUMED_SCHEMAS = ['iflips / iflip1 / idxcombs / neqprefix schemas of the != builder (the semantic core is Neq.lean neq_main; the list-level wrappers were added after the third Lean pass)',
+ASSUMED_SCHEMAS = ['oappc schemas (clauses rendered as PB constraints): added after the third Lean pass',
+                   'iflips / iflip1 / idxcombs / neqprefix schemas of the != builder (the semantic core is Neq.lean neq_main; the list-level wrappers were added after the third Lean pass)',
                    'tmaxabs_witness (tmpos), thaszero_witness (tzpos), thaszero_of_get: added after the third Lean pass (same shape as the proved ISeq witnesses)',
                    'card2_store side condition: proved in Lean (CnfSem.card2_store) for FINITE pair sets only; that every edge set '
                    'is finite (built from the empty set by finitely many add/remove) is not expressible in the VCs']
@@ -468,6 +470,21 @@ def _opb_on_terms(d):
         out.append(z3.Implies(k == olen(o), otake(o, k) == o))
         for (o3, k3) in d.get('otake', []):
             out.append(z3.Implies(z3.And(0 <= k, k <= k3, k3 <= olen(o3), o == otake(o3, k3)), otake(o, k) == otake(o3, k)))
+    S = z3.StringVal
+    for (o, c) in d.get('oappc', []):
+        n = oappc(o, c)
+        # Opb.lean oappc_*: clauses rendered as PB constraints, appended
+        out += [z3.Implies(c == cnil, n == o),
+                olen(n) == olen(o) + clen(c),
+                omaxabs(n) == zmax(omaxabs(o), cmaxabs(c)),
+                ohaszero(n) == z3.Or(ohaszero(o), chaszero(c)),
+                onormal(n) == onormal(o),
+                z3.Implies(True, otake(n, olen(o)) == o)]
+        for (c2, s2) in d.get('csnoc', []):
+            if c.eq(csnoc(c2, s2)):
+                out.append(n == osnoc(oappc(o, c2), mkcon(tunit(s2), S('>='), z3.IntVal(1))))
+            else:
+                out.append(z3.Implies(c == csnoc(c2, s2), n == osnoc(oappc(o, c2), mkcon(tunit(s2), S('>='), z3.IntVal(1)))))
     out.append(olen(onil) == 0)
     out.append(omaxabs(onil) == 0)
     out.append(z3.Not(ohaszero(onil)))
@@ -489,6 +506,8 @@ def _opb_sem(asgs, d, by_sort):
                                   + c * b2i(lit_true(a, l))))
         for (o, c) in d.get('osnoc', []):
             out.append(osat(a, osnoc(o, c)) == z3.And(osat(a, o), holds(a, c)))
+        for (o, c) in d.get('oappc', []):
+            out.append(osat(a, oappc(o, c)) == z3.And(osat(a, o), sat(a, c)))          # Opb.lean osat_oappc
         for c in by_sort.get('Con', []):
             out.append(holds(a, c) == cmp_op(Con.op(c), wsum(a, Con.terms(c)), Con.value(c)))
     return out
